@@ -138,3 +138,41 @@ func constsOfType(pkg *types.Package, typeName string) map[string]int64 {
 	}
 	return out
 }
+
+// reachesExitAvoidingEdges is like reachesExitAvoiding but lets the caller block individual CFG
+// edges (from block, successor index) in addition to blocks.
+func reachesExitAvoidingEdges(from *ssa.BasicBlock, isExit func(*ssa.BasicBlock) bool, avoidBlock func(*ssa.BasicBlock) bool, avoidEdge func(b *ssa.BasicBlock, succ int) bool) ([]*ssa.BasicBlock, bool) {
+	type item struct {
+		b    *ssa.BasicBlock
+		prev int
+	}
+	if avoidBlock(from) {
+		return nil, false
+	}
+	seen := map[*ssa.BasicBlock]bool{from: true}
+	order := []item{{from, -1}}
+	if isExit(from) {
+		return []*ssa.BasicBlock{from}, true
+	}
+	for i := 0; i < len(order); i++ {
+		b := order[i].b
+		for si, s := range b.Succs {
+			if seen[s] || avoidBlock(s) || avoidEdge(b, si) {
+				continue
+			}
+			seen[s] = true
+			order = append(order, item{s, i})
+			if isExit(s) {
+				var path []*ssa.BasicBlock
+				for j := len(order) - 1; j >= 0; j = order[j].prev {
+					path = append([]*ssa.BasicBlock{order[j].b}, path...)
+					if order[j].prev < 0 {
+						break
+					}
+				}
+				return path, true
+			}
+		}
+	}
+	return nil, false
+}
